@@ -127,7 +127,10 @@ def strategy(tier):
         st.sampled_from(["rnd", "rnd", "zero", "ones"]),
         st.lists(item, min_size=1, max_size=10),
     )
-    return st.integers(0, 4).flatmap(lambda i: refresh if i == 0 else hist)
+    rec_ = st.tuples(st.integers(0, 5), st.lists(st.integers(0, 15), min_size=1, max_size=2)).map(list)   # few items: they come back
+    statpseq = st.builds(lambda cls, seq, base: {"k": "statpseq", "cls": cls, "seq": [[[base + r[0] * 7, r[1]] for r in m] for m in seq]},
+                         st.sampled_from(["sync", "sync", "async"]), st.lists(st.lists(rec_, min_size=1, max_size=2), min_size=2, max_size=6), st.integers(0, 2000))
+    return st.integers(0, 9).flatmap(lambda i: refresh if i in (0, 1) else (statpseq if i == 2 else hist))
 
 
 # ------------------------------------------------------------------ refresh through the real transfer code
@@ -253,6 +256,117 @@ def _run_refresh(res, case):
     return res
 
 
+def _run_statpseq(res, case):
+    """a sequence of unsolicited partial updates through a really connected client (blocking client on the stepped engine / async
+    client on the virtual loop): per received message every watched item notifies exactly once iff its value differs between the
+    block before and after that message - also when a later message takes an item back to an earlier value"""
+    from .. import clients, refcodec as R, stepped, vworld
+    from ..runner import SetupFailed
+
+    c = _snap_pair()
+    p = c["p"]
+    tags = sorted(t for t in p.items if p.items[t].pos + p.items[t].width <= packs.BLOCK)
+    log = []
+
+    def watch_all(struct, accessors):
+        for t, acc in accessors.items():
+            def fn(sender, old, new, _t=t):
+                log.append((_t, sender, old, new, struct.status_block))
+            acc.watch(fn)
+
+    def messages(block):
+        """toggle messages: the same (item, bits) later in the sequence takes the item back to where it was"""
+        cur = block
+        for recs in case["seq"]:
+            msg = []
+            seen = set()
+            for ti, bits in recs:
+                it = p.items[tags[int(ti) % len(tags)]]
+                # (each record is an update of its own: two records of ONE message toggling the same bytes there and back would
+                # rightly be announced twice - a message names every position once)
+                if any(b_ in seen for b_ in it.bytes_range()) or it.pos + 2 > packs.BLOCK and it.width == 1 and (it.pos - 1) in seen:
+                    continue
+                seen.update(range(min(it.pos, packs.BLOCK - 2), min(it.pos, packs.BLOCK - 2) + 2))
+                w = int.from_bytes(cur[it.pos:it.pos + it.width], "big")
+                for b_ in bits:
+                    w ^= 1 << (int(b_) % (8 * it.width))
+                pos = it.pos if it.width == 2 else min(it.pos, packs.BLOCK - 2)
+                word = w.to_bytes(it.width, "big") if it.width == 2 else (bytes([w]) + cur[pos + 1:pos + 2] if pos == it.pos else cur[pos:pos + 1] + bytes([w]))
+                cur = cur[:pos] + word + cur[pos + 2:]
+                msg.append((pos, word))
+            if msg:
+                yield msg, cur
+
+    def judge(n, before, after, final):
+        calls = {}
+        for t, sender, o, n_, blk in log:
+            calls.setdefault(t, []).append((o, n_, blk))
+        if final != after:
+            res.fail(f"C03|statp-sequence|{case['cls']}|block", f"message #{n}: the client block is not the block before + this message's records")
+            return
+        for t in tags:
+            it = p.items[t]
+            got = calls.get(t, [])
+            changed = it.stored(before) != it.stored(after)
+            if len(got) != (1 if changed else 0):
+                res.fail(f"C03|statp-sequence|{case['cls']}|{'missing' if len(got) < changed else ('duplicate' if changed else 'spurious')}-notification",
+                         f"message #{n} of {len(case['seq'])}: {t} {it.stored(before)!r} -> {it.stored(after)!r} across the message, observer called {len(got)} times "
+                         f"{[(g[0], g[1]) for g in got][:3]}")
+                return
+            if changed and it.kind != "Temp" and (got[0][0], got[0][1]) != (it.decode(before), it.decode(after)):
+                res.fail(f"C03|statp-sequence|{case['cls']}|wrong-args", f"message #{n}: {t} observer got ({got[0][0]!r},{got[0][1]!r}), expected "
+                         f"({it.decode(before)!r},{it.decode(after)!r})")
+                return
+
+    if case["cls"] == "sync":
+        sim = vworld.make_simulator()
+        eng = stepped.Engine()
+        with eng.patched():
+            spa, ok = stepped.connect_threaded_spa(eng, sim)
+            if not ok:
+                raise SetupFailed("threaded handshake failed fault-free")
+            watch_all(spa.struct, spa.struct.accessors)
+            q = stepped.quiescent(eng, spa)
+            before = spa.struct.status_block
+            for n, (msg, after) in enumerate(messages(before)):
+                del log[:]
+                eng.deliver(R.frame(stepped.SPA_ID, stepped.CLIENT_ID, R.partial_update(msg)), stepped.SPA_ADDR)
+                if not stepped.run_until(eng, q):
+                    raise SetupFailed("threaded client not quiescent")
+                t_end = eng.vt.t + 0.3
+                stepped.run_until(eng, lambda: eng.vt.t >= t_end)
+                judge(n, before, after, spa.struct.status_block)
+                if res.violations:
+                    break
+                before = after
+    elif case["cls"] == "async":
+        W = vworld.World()
+        sim = vworld.make_simulator()
+        peer = W.add_peer(sim)
+
+        async def main(W):
+            spa, tm, ev = await clients.connect_async_spa(W, peer)
+            try:
+                watch_all(spa.struct, spa.accessors)
+                before = spa.struct.status_block
+                for n, (msg, after) in enumerate(messages(before)):
+                    del log[:]
+                    W.inject(W.transports[-1], R.frame(sim.vp_identifier, clients.CLIENT_ID, R.partial_update(msg)), peer.addr)
+                    await W.sleep(0.8)
+                    judge(n, before, after, spa.struct.status_block)
+                    if res.violations:
+                        break
+                    before = after
+            finally:
+                await clients.shutdown(tm)
+        W.run(main)
+    else:
+        raise InvalidCase(case)
+    res.nontrivial = len(case["seq"]) >= 3
+    res.label("statp-sequence-" + case["cls"])
+    return res
+
+
 def _geometry(it, off, ln):
     a, b = max(off, it.pos), min(off + ln, it.pos + it.width)
     n = b - a
@@ -267,6 +381,8 @@ def run_case(case) -> Result:
     res = Result()
     if case.get("k") == "refresh":
         return _run_refresh(res, case)
+    if case.get("k") == "statpseq":
+        return _run_statpseq(res, case)
     combos = packs.combos()
     plat, cv, lv = combos[case["combo"] % len(combos)]
     cls = case["cls"]
